@@ -111,7 +111,8 @@ def run(ctx):
             viol("rotated", "setting unitcell_vectors to a rotated description of lengths %s angles %s reads back %s %s" % (
                 (a, b, c), (al, be, ga), t.unitcell_lengths[0], t.unitcell_angles[0]), rp)
         vol = abs(float(np.dot(A, np.cross(B, C))))
-        if abs(t.unitcell_volumes[0] - vol) > 1e-4 * vol:
+        # (lengths and angles are stored in single precision: the volume of a needle-shaped cell, abc/V in the hundreds, inherits abc * eps)
+        if abs(t.unitcell_volumes[0] - vol) > 1e-4 * vol + 4e-6 * a * b * c:
             viol("volume", "unitcell_volumes %.6f, triple product %.6f" % (t.unitcell_volumes[0], vol), rp)
         back = t.unitcell_vectors[0]
         if abs(back[0, 1]) + abs(back[0, 2]) + abs(back[1, 2]) > 0 or np.linalg.det(back.astype(np.float64)) <= 0:
@@ -139,7 +140,7 @@ def run(ctx):
                      "frame %d of a trajectory whose frames have different cell shapes: unitcell_vectors %s, lengths %s angles %s give %s" % (f, V[f].round(5).tolist(), c[:3], c[3:], want.round(5).tolist()), rp)
                 break
             vol = abs(float(np.dot(want[0], np.cross(want[1], want[2]))))
-            if abs(vols[f] - vol) > 1e-4 * vol:
+            if abs(vols[f] - vol) > 1e-4 * vol + 4e-6 * c[0] * c[1] * c[2]:
                 viol("mixed-frames|volume", "frame %d: unitcell_volumes %.6f, triple product %.6f" % (f, vols[f], vol), rp)
                 break
             if not np.array_equal(t[f].unitcell_vectors[0], t.unitcell_vectors[f]):
